@@ -27,13 +27,15 @@ ASSUME = [
     "acc (the objects 'neither filter rejects'): the operation's own names are accepted, the include_object calls the unfiltered "
     "comparison makes for its table and object say yes, and - foreign keys being matched by signature - no reflected foreign key with "
     "the signature of an added key is name-rejected",
+    "configuration: the filters of a run are a function of the LAST configure() call only (effective_filt); when that call passes no "
+    "filters the specification is the plain comparison and the expected trace is empty (fl_none)",
     "the theorems hold for ALL predicates include_object(object, reflected, compare_to) and include_name(name,type,parents) "
     "(Section variables); the correspondence samples predicates that are finite decision tables",
 ]
 RULE = ("seeded random schema pairs as for C06 (B = A after 1-6 random changes) x random filter pairs: include_object is a decision "
         "table over (kind, table, name, reflected, compare_to is None) for the objects of A and B with ~20% rejections (sometimes default "
         "reject), include_name a table over reflected names with ~15% rejections (schema rejected in ~2%); both installed as real "
-        "callables that also log every invocation (with a digest of the object and of compare_to); in half of the cases 1-2 content rules (reject a table that has column X / a reflected table with an index / a table with a foreign key / a column of type family F / an index or unique constraint over column X / a foreign key to table T / when compare_to has column X) are added, and in half of the cases about half of the foreign keys are declared without a name (reflected with name None; include_name then sees (None, foreign_key_constraint, parent table)). non-trivial = the unfiltered comparison yields an operation and at least one filter "
+        "callables that also log every invocation (with a digest of the object and of compare_to); in half of the cases 1-2 content rules (reject a table that has column X / a reflected table with an index / a table with a foreign key / a column of type family F / an index or unique constraint over column X / a foreign key to table T / when compare_to has column X) are added, and in half of the cases about half of the foreign keys are declared without a name (reflected with name None; include_name then sees (None, foreign_key_constraint, parent table)). include_object is keyed on its NAME argument (a schema-qualified or otherwise wrong name is a question nobody is expected to ask, and asserts name == object.name). In a quarter of the cases the comparison goes through ONE EnvironmentContext configured twice (filters then none / none then filters / other filters then these): the filters in force must be those of the last configure() call, and with none installed no callable may be called. non-trivial = the unfiltered comparison yields an operation and at least one filter "
         "call returned False; distinct by the encoded case")
 EXHAUSTIVE = {"quick": False, "thorough": False}
 CASE_TIMEOUT = 60
@@ -186,12 +188,38 @@ def _cases(rnd, n):
                         if where == "AB" and rnd.random() < 0.6:
                             t2["cols"].append([9, 0, [], True, False, None])
                         B.append(t2)
-        yield {"A": A, "B": B, "f": gen_filter(rnd, A, B, attached)}
+            # foreign keys between tables of one ATTACHed schema (reflected with referred_schema = that schema)
+            for i in attached:
+                for _ in range(rnd.choice([0, 1, 1, 2])):
+                    both = [t["name"] for t in A if t["name"] // 100 == i]
+                    allc = sorted({t["name"] for t in A + B if t["name"] // 100 == i})
+                    if not allc: continue
+                    src, dst = rnd.choice(allc), rnd.choice(allc)
+                    name = src * 10 + 5 + rnd.randrange(3)
+                    for Sx in (A, B):
+                        ts = {t["name"]: t for t in Sx}
+                        if src in ts and dst in ts and rnd.random() < 0.8:
+                            cols = [c[0] for c in ts[src]["cols"] if not (c[5] is not None and c[5][0] == "comp")]
+                            fk = [name, [min(cols) if src == dst else cols[name % len(cols)]], dst, [0], [None, None, None, None], True]
+                            if all(f[0] != name and sorted(f[1]) != sorted(fk[1]) for f in ts[src]["fks"]):
+                                ts[src]["fks"].append(fk)
+        h = {"A": A, "B": B, "f": gen_filter(rnd, A, B, attached)}
+        if rnd.random() < 0.25:         # one EnvironmentContext configured twice (multidb env.py): the last call decides
+            shape = rnd.choice(["filters_then_none", "none_then_filters", "two_filters"])
+            other = gen_filter(rnd, A, B, attached)
+            if shape == "filters_then_none":
+                h["configs"] = [other, None]
+                h["f"] = {"obj": [], "obj_d": True, "name": [], "name_d": True, "rules": [], "attached": list(attached)}
+            elif shape == "none_then_filters":
+                h["configs"] = [None, h["f"]]
+            else:
+                h["configs"] = [other, h["f"]]
+        yield h
 
 
 def generate(tier, seed):
     rnd = random.Random(seed * 7919 + 20)
-    yield from _cases(rnd, 600 if tier == "quick" else 12000)
+    yield from _cases(rnd, 520 if tier == "quick" else 12000)
 
 
 def search(tier, seed):
@@ -212,8 +240,8 @@ def q_ref(r):
 def q_filter(f):
     obj = cf.lst("((%s, %s, %s), %s)" % (q_ref(r), cf.boolean(a), cf.boolean(b), cf.boolean(v)) for r, a, b, v in f["obj"])
     name = cf.lst("(%s, %s)" % (q_ref(r), cf.boolean(v)) for r, v in f["name"])
-    return "(mkFilt %s %s %s %s %s %s)" % (obj, cf.boolean(f["obj_d"]), name, cf.boolean(f["name_d"]), cf.lst(q_rule(r) for r in f.get("rules", [])),
-                                        cf.nlist(f.get("attached", [])))
+    return "(mkFilt %s %s %s %s %s %s false)" % (obj, cf.boolean(f["obj_d"]), name, cf.boolean(f["name_d"]), cf.lst(q_rule(r) for r in f.get("rules", [])),
+                                              cf.nlist(f.get("attached", [])))
 
 
 def q_rule(r):
@@ -279,9 +307,13 @@ def make_filters(f, log):
         raise AssertionError("unexpected filter type %r" % (type_,))
 
     def include_object(obj, name, type_, reflected, compare_to):
-        r = oref(obj, name, type_)
-        if obj.name != name:
-            raise AssertionError("name argument differs from object.name")
+        # the predicate is keyed on the NAME it is handed (as a user's include_object is): a name that is not the object's own bare
+        # name (e.g. a schema-qualified "s1.t3") is an object the decision table does not know - observable, not a harness error
+        try:
+            r = oref(obj, name, type_)
+            if obj.name != name: raise AssertionError("name argument differs from object.name")
+        except AssertionError:
+            r = ("t", 9999)
         key = (r, bool(reflected), compare_to is not None)
         log.append(["o", list(r), key[1], key[2], digest(obj, type_), digest(compare_to, type_)])
         return otab.get(key, f["obj_d"]) and not any(rule_rejects(x, obj, type_, reflected, compare_to) for x in f.get("rules", []))
@@ -308,6 +340,37 @@ def make_filters(f, log):
     return include_object, include_name
 
 
+def _q_calls(log):
+    return cf.lst(("(TN %s)" % q_ref(c[1])) if c[0] == "n" else
+                  "(TO %s %s %s %s %s)" % (q_ref(c[1]), cf.boolean(c[2]), cf.boolean(c[3]), cf.nlist(c[4]), cf.nlist(c[5])) for c in log)
+
+
+def canary(human, rec):
+    """corrupted observations the decider must reject: an operation lost, an operation reported twice, the filters ignored
+    (the unfiltered result), an operation nobody would report without filters, every call of one name-filter question missing"""
+    out = rec.get("out") or {}
+    if "trace" not in out:
+        return []
+    filt, plain, log = out["filtered"], out["plain"], out["trace"]
+    mk = lambda f, l: "(mkOut20 %s %s %s)" % (S.q_ops(f), S.q_ops(plain), _q_calls(l))
+    bad = []
+    if filt:
+        bad += [mk(filt[1:], log), mk(filt + filt[:1], log)]
+    def norm(op):       # the constraints of a create_table are a set
+        if op[0] == "create_table":
+            t = op[1]
+            return str([op[0], dict(t, cons=sorted(map(str, t["cons"])), fks=sorted(map(str, t["fks"])), uuqs=sorted(map(str, t.get("uuqs", []))))])
+        return str(op)
+    if sorted(map(norm, filt)) != sorted(map(norm, plain)):
+        bad.append(mk(plain, log))
+    bad.append(mk(filt + [["drop_table", 9999]], log))
+    names = [c for c in log if c[0] == "n"]
+    if names:
+        gone = names[len(names) // 2][1]
+        bad.append(mk(filt, [c for c in log if not (c[0] == "n" and c[1] == gone)]))
+    return bad
+
+
 def run_case(h):
     S.quiet_logs()
     A, B, f = h["A"], h["B"], h["f"]
@@ -318,21 +381,39 @@ def run_case(h):
         with e.connect() as conn:
             _, ms0 = S.compare(conn, mdB, (True, True), include_schemas=True)
             plain = S.abs_ops(ms0.upgrade_ops, conn.dialect, A, B)
-            io, iname = make_filters(f, log)
-            _, ms1 = S.compare(conn, S.build_metadata(B), (True, True), include_object=io, include_name=iname, include_schemas=True)
+            if "configs" in h:
+                from alembic.config import Config
+                from alembic.runtime.environment import EnvironmentContext
+                from alembic.autogenerate import produce_migrations
+                env = EnvironmentContext(Config(), None)
+                md1 = S.build_metadata(B)
+                for c in h["configs"]:
+                    kw = {}
+                    if c is not None:      # every callable logs into the same trace: a filter kept from an earlier call is observed
+                        kw["include_object"], kw["include_name"] = make_filters(c, log)
+                    env.configure(connection=conn, target_metadata=md1, compare_type=True, compare_server_default=True,
+                                  include_schemas=True, **kw)
+                ms1 = produce_migrations(env.get_context(), md1)
+            else:
+                io, iname = make_filters(f, log)
+                _, ms1 = S.compare(conn, S.build_metadata(B), (True, True), include_object=io, include_name=iname, include_schemas=True)
             filt = S.abs_ops(ms1.upgrade_ops, conn.dialect, A, B)
     finally:
         e.dispose()
-    qcalls = cf.lst(("(TN %s)" % q_ref(c[1])) if c[0] == "n" else "(TO %s %s %s %s %s)" % (q_ref(c[1]), cf.boolean(c[2]), cf.boolean(c[3]), cf.nlist(c[4]), cf.nlist(c[5]))
-                    for c in log)
-    cin = "(%s, %s, %s)" % (S.q_schema(A), S.q_schema(B), q_filter(f))
+    qcalls = _q_calls(log)
+    if "configs" in h:
+        qf = "(effective_filt %s %s)" % (cf.lst("None" if c is None else "(Some %s)" % q_filter(c) for c in h["configs"]),
+                                        cf.nlist(f.get("attached", [])))
+    else:
+        qf = q_filter(f)
+    cin = "(%s, %s, %s)" % (S.q_schema(A), S.q_schema(B), qf)
     cout = "(mkOut20 %s %s %s)" % (S.q_ops(filt), S.q_ops(plain), qcalls)
     otab = {(tuple(r), a, b): v for r, a, b, v in f["obj"]}
     ntab = {tuple(r): v for r, v in f["name"]}
     rejected = any((not otab.get((tuple(c[1]), c[2], c[3]), f["obj_d"])) if c[0] == "o" else (not ntab.get(tuple(c[1]), f["name_d"]))
                    for c in log)
     shape = "%s-%s" % ("diff" if plain else "nodiff", "same" if sorted(map(str, plain)) == sorted(map(str, filt)) else "changed")
-    return dict(cin=cin, cout=cout, out={"filtered": filt, "plain": plain, "calls": len(log)},
+    return dict(cin=cin, cout=cout, out={"filtered": filt, "plain": plain, "calls": len(log), "trace": [list(c) for c in log]},
                 nontrivial=bool(plain) and rejected, shape=shape)
 
 
